@@ -1207,6 +1207,77 @@ def _module_object(path: str):
     return NativeObj(f"<module {path}>", {}, {"__file__": path + "/__init__.py", "__name__": path.rsplit("/", 1)[-1]})
 
 
+def _entry_arguments(cx: Ctx, entry: FuncInfo, style: str, root: str, sub: str) -> tuple[list, dict, str | None]:
+    """Arguments for one call of an entry point (all but the limit) and the name of its limit parameter."""
+    mp = root + sub
+    if style == "paths":
+        args, kwargs = [root, mp], {}
+    elif style == "modules":
+        args, kwargs = [_module_object(root), _module_object(mp)], {}
+    else:  # generate_graph(root_path, module_path, diff, exclusions, exclude_external, limit, external_exclusions)
+        diff = sub.strip("/").replace("/", ".") or "."
+        args, kwargs = [], {}
+        for p in entry.param_names:
+            t = cx.T.param_type(entry, p)
+            ks = {m[1] if m[0] == "b" else (m[1] if m[0] == "lib" else m[0]) for m in members(t)}
+            if "level_limit" in p:
+                continue
+            if "pathlib.Path" in ks:
+                kwargs[p] = PurePosixPath(mp if "module" in p else root)
+            elif "str" in ks and "tuple" not in ks:
+                kwargs[p] = diff
+            elif "bool" in ks:
+                kwargs[p] = True
+            elif "tuple" in ks:
+                kwargs[p] = None if "none" in ks else ()
+            else:
+                kwargs[p] = POISON
+    lp = next((p for p in entry.param_names if p == "level_limit"), None) or next((p for p in entry.param_names if "limit" in p), None)
+    return args, kwargs, lp
+
+
+def repeated_calls(cx: Ctx, entry: FuncInfo, style: str) -> list[tuple]:
+    """Two calls of the entry point for the same paths with different limits, evaluated one after the other on the *same* evaluator
+    (module-level and class-level values persist between the calls, as they do in one Python process).  Yields
+    (first limit, second limit, depth, module path, outcome) for every second call whose outcome is certain and is not 'one graph
+    constructed with the user's limit plus the depth'; outcome = ("no-construction",) | ("value", v)."""
+    bad: list[tuple] = []
+    root = "/srv/work/proj"
+    for sub in ("", "/core/domain"):
+        depth = sub.count("/")
+        for first, second in ((1, 2), (None, 1), (2, None)):
+            caps = [Capture(cx), Capture(cx)]
+            ev = Evaluator(cx.repo, tolerant=True, intercept={cx.g.fq: caps[0]})
+            ok = True
+            for k, lim in enumerate((first, second)):
+                ev.intercept[cx.g.fq] = caps[k]
+                before = ev.uncertain_exits
+                try:
+                    args, kwargs, lp = _entry_arguments(cx, entry, style, root, sub)
+                    if lp is None:
+                        return []
+                    kwargs[lp] = lim
+                    ev.call_function(entry, args, kwargs)
+                except (Raised, Unknown):
+                    if not caps[k].calls:
+                        ok = False
+                        break
+                st, v = caps[k].limit()
+                want = None if lim is None else lim + depth
+                if k == 0:
+                    if st != "ok" or v != want:
+                        ok = False  # the first call is what the single-call table judges
+                        break
+                    continue
+                if not ok:
+                    break
+                if st == "ok" and v != want:
+                    bad.append((first, second, depth, root + sub, ("value", v)))
+                elif not caps[k].calls and ev.uncertain_exits == before:
+                    bad.append((first, second, depth, root + sub, ("no-construction",)))
+    return bad
+
+
 def tabulate_limit(cx: Ctx, entry: FuncInfo, style: str) -> tuple[list[tuple], str | None]:
     """Rows (user limit, depth, outcome) of the limit received by the graph; or the reason why it cannot be tabulated."""
     rows: list[tuple] = []
@@ -1219,29 +1290,7 @@ def tabulate_limit(cx: Ctx, entry: FuncInfo, style: str) -> tuple[list[tuple], s
             ev = Evaluator(cx.repo, tolerant=True, intercept={cx.g.fq: cap})
             mp = root + sub
             try:
-                if style == "paths":
-                    args, kwargs = [root, mp], {}
-                elif style == "modules":
-                    args, kwargs = [_module_object(root), _module_object(mp)], {}
-                else:  # generate_graph(root_path, module_path, diff, exclusions, exclude_external, limit, external_exclusions)
-                    diff = sub.strip("/").replace("/", ".") or "."
-                    args, kwargs = [], {}
-                    for p in entry.param_names:
-                        t = cx.T.param_type(entry, p)
-                        ks = {m[1] if m[0] == "b" else (m[1] if m[0] == "lib" else m[0]) for m in members(t)}
-                        if "level_limit" in p:
-                            continue
-                        if "pathlib.Path" in ks:
-                            kwargs[p] = PurePosixPath(mp if "module" in p else root)
-                        elif "str" in ks and "tuple" not in ks:
-                            kwargs[p] = diff
-                        elif "bool" in ks:
-                            kwargs[p] = True
-                        elif "tuple" in ks:
-                            kwargs[p] = None if "none" in ks else ()
-                        else:
-                            kwargs[p] = POISON
-                lp = next((p for p in entry.param_names if p == "level_limit"), None) or next((p for p in entry.param_names if "limit" in p), None)
+                args, kwargs, lp = _entry_arguments(cx, entry, style, root, sub)
                 if lp is None:
                     return rows, f"{entry.qualname} has no level_limit parameter"
                 kwargs[lp] = lim
@@ -1286,6 +1335,7 @@ def rule_r4(cx: Ctx, scan_depends_on_limit: bool = False) -> None:
             continue
         decided += 1
         _judge_limit_rows(cx, entry, rows)
+        _judge_repeated_calls(cx, entry, style)
     if not decided:
         # the public entry points cannot be evaluated: tabulate the function that constructs the graph
         builders = [f for f, _c in cx.ctor_sites() if f.outer is None and f.cls is None]
@@ -1295,6 +1345,7 @@ def rule_r4(cx: Ctx, scan_depends_on_limit: bool = False) -> None:
             if why is None:
                 decided += 1
                 _judge_limit_rows(cx, b, rows)
+                _judge_repeated_calls(cx, b, "generate")
             else:
                 problems.append(why)
     if not decided:
@@ -1302,6 +1353,38 @@ def rule_r4(cx: Ctx, scan_depends_on_limit: bool = False) -> None:
     else:
         for p in problems:
             res.observe(f"C09.R4: {p}")
+
+
+def _judge_repeated_calls(cx: Ctx, entry: FuncInfo, style: str) -> None:
+    """The limit reaches the graph on *every* call: an architecture built for one limit is not served to a later call that asks for
+    another (a cache of graphs / architectures whose key lacks the limit)."""
+    res, repo = cx.res, cx.repo
+    bad = repeated_calls(cx, entry, style)
+    key = f"{entry.relpath}::{entry.qualname}::a later call with another limit gets its own graph"
+    if not bad:
+        res.add("C09.R4", key, True, "two calls for the same paths with different limits, evaluated on shared module / class state: the second graph is constructed with its own limit", where(entry, entry.node), kind="decision-table")
+        return
+    first, second, depth, mp, out = bad[0]
+    # name the state that outlives the call (for the report; the evidence is the evaluation)
+    E = Effects(repo, cx.T)
+    kept: list[str] = []
+    site = None
+    for f in reachable_funcs(repo, [entry], byname=False):
+        if f in construction_functions(cx) or not f.module.name.startswith("pytestarch"):
+            continue
+        for w in E.writes(f):
+            if w.root_kind in ("classvar", "global") and len(kept) < 3:
+                kept.append(f"`{header(stmt_of(w.node))}` in {f.qualname} ({w.root_kind} {w.root}.{w.field})")
+                site = site or (f, w.node)
+    got = "no graph is constructed (the result of the first call is returned)" if out[0] == "no-construction" else f"the graph receives limit {out[1]!r}"
+    want = None if second is None else second + depth
+    res.add(
+        "C09.R4", key, False,
+        f"after a call with level_limit={first}, a call with level_limit={second} for the same paths (root /srv/work/proj, module {mp}): {got}, expected a graph with limit {want!r}"
+        + (f"; state that outlives the call: {'; '.join(kept)}" if kept else "")
+        + " - the architecture is then the quotient for another limit than the one asked for",
+        where(*site) if site else where(entry, entry.node), kind="decision-table",
+    )
 
 
 def _judge_limit_rows(cx: Ctx, entry: FuncInfo, rows: list[tuple]) -> None:
